@@ -135,6 +135,13 @@ pub fn menu(s: &Structure) -> Vec<Op> {
         }
     }
     v.push(rec(P::Admin, None, Some(vec![4242]), None, vec![]));
+    // admin-forced selection of every tracked transfer of the store (when they share receiver and denom)
+    // (refundable ones only: forcing a transfer that is still in flight re-bases the ledgers by design, DESIGN 4.4)
+    let all_native_staker = !s.packets.is_empty() && s.packets.iter().all(|p| p.recv == scen::PRecv::Staker && p.denom == scen::PDenom::Native && p.status != PacketLifecycleStatus::Sent);
+    if all_native_staker {
+        v.push(rec(P::Admin, None, Some(s.packets.iter().map(|p| p.seq).collect()), None, vec![]));
+        v.push(rec(P::Admin, None, Some(s.packets.iter().map(|p| p.seq).chain([4242u64]).collect()), None, vec![]));
+    }
     v.push(Op::FeeWithdraw { sender: P::Admin });
     v.push(Op::FeeWithdraw { sender: P::U(0) });
     v.push(Op::FeeWithdraw { sender: P::Treasury });
@@ -189,6 +196,9 @@ pub fn admin_menu() -> Vec<Op> {
     v.push(Op::UpdateConfig { sender: P::Admin, sections: crate::cfgops::S_PROTOCOL | crate::cfgops::S_FEE | crate::cfgops::S_NEWPREFIX });
     v.push(Op::UpdateConfig { sender: P::Admin, sections: crate::cfgops::S_PROTOCOL | crate::cfgops::S_FEE | crate::cfgops::S_OLDPREFIX_TREASURY });
     v.push(Op::UpdateConfig { sender: P::Admin, sections: crate::cfgops::S_PROTOCOL | crate::cfgops::S_NEWPREFIX });
+    v.push(Op::UpdateConfig { sender: P::Admin, sections: crate::cfgops::S_PROTOCOL | crate::cfgops::S_MONITORS | crate::cfgops::S_NEWPREFIX });
+    v.push(Op::UpdateConfig { sender: P::Admin, sections: crate::cfgops::S_PROTOCOL | crate::cfgops::S_FEE | crate::cfgops::S_MONITORS | crate::cfgops::S_NEWPREFIX });
+    v.push(Op::UpdateConfig { sender: P::Admin, sections: crate::cfgops::S_PROTOCOL | crate::cfgops::S_MONITORS | crate::cfgops::S_OLDPREFIX_TREASURY });
     v
 }
 
